@@ -497,7 +497,20 @@ func workC01Root(w *run.W) {
 		c01Total(w, "root", impl.Single(string([]byte{byte(b)})), dir)
 		w.End()
 	}
-	w.Sample(map[string]any{"family": "root", "cases": "nonexistent path, directory, empty file, empty path, each single byte"})
+	// a line of n equal bytes (the quote of an error is cut at 200 bytes)
+	for _, b := range []byte{0x80, 0xbf, 0xc3, 0xe2, 0xf0, 0xff, ' ', 'x', '\t'} {
+		for _, n := range []int{150, 197, 198, 199, 200, 201, 202, 203, 204, 300, 1000} {
+			if !w.Begin(fmt.Sprintf("root/line-of-%d-bytes-%#x", n, b)) {
+				continue
+			}
+			line := strings.Repeat(string([]byte{b}), n)
+			for _, doc := range []string{"JSIGHT 0.3\n" + line, "JSIGHT 0.3\n" + line + "\nGET /a\n", line, "JSIGHT 0.3\nGET /a // " + line + "\n  x\n", "JSIGHT 0.3\nTYPE @t\n{\"k\": \"" + line + "\", \"v\": tru}\n", "JSIGHT 0.3\nGET /a\n  Description\n    " + line + "\n  Description\n    d\n"} {
+				c01Total(w, "root", impl.Single(doc), dir)
+			}
+			w.End()
+		}
+	}
+	w.Sample(map[string]any{"family": "root", "cases": "nonexistent path, directory, empty file, empty path, each single byte, lines of 150-1000 equal bytes"})
 }
 
 func runC01(c *chk.Ctx) {
